@@ -143,6 +143,8 @@ Fixpoint dec_args (n : nat) (l : list Z) : list (ashape * leaf) :=
 Definition dec_method (row : list Z) : option method :=
   match row with
   | r :: im :: rt :: rl :: n :: args =>
+      (* bit 2 (+4): the method has a default body; bit 3 (+8): explicit lifetime generics — neither changes the generated glue *)
+      let im := im mod 4 in
       Some (mkm (dec_recv r) (if im =? 1 then IOn else if im =? 2 then IOff else IDefault) (dec_rshape rt) (rl mod 9) (dec_args (zn n) args))
   | _ => None
   end.
